@@ -42,7 +42,7 @@ THEOREMS = {"C12": ["strip_path_spec", "strip_path_basename", "unquote_quote", "
                     "apply_patch_context_reject_reparses_diff_input_force", "apply_patch_reject_reparses_diff_input"],
             "C14": ["split_lines_roundtrip", "split_lines_wf", "terminator_keep", "terminator_lf", "terminator_crlf",
                     "final_newline_iff", "apply_output_lines"],
-            "C20": ["define_eval", "apply_conforming_define", "section_define", "cpp_eval_outside", "outside_lines_common", "outside_lines_common_conforming"]}
+            "C20": ["define_eval", "apply_conforming_define", "section_define", "cpp_eval_outside", "outside_lines_common", "outside_lines_common_conforming", "cpp_eval_both", "define_texts_bound", "common_lines_unguarded"]}
 
 
 # ---------------------------------------------------------------- C12
@@ -845,6 +845,19 @@ def run_c20(run_, rng, tier, exe):
             adds = sum(1 for o, _, _ in sum((h["body"] for h in c["hs"]), []) if o == "+")
             if len(lines) - nd != len(c["a"]) + adds:
                 bad.append((i, "-D output duplicates or drops common lines", rep))
+            else:
+                # the count of common_lines_unguarded / outside_lines_common, as an equality on a conforming patch:
+                # exactly the |A| - dels lines the patch leaves alone stand at nesting depth 0
+                depth = 0; unguarded = 0
+                for l in lines:
+                    if l.startswith("#if"):
+                        depth += 1
+                    elif l == "#endif":
+                        depth -= 1
+                    elif l != "#else" and depth == 0:
+                        unguarded += 1
+                if unguarded != len(c["a"]) - dels:
+                    bad.append((i, "-D output: %d lines outside every conditional, the patch leaves %d lines alone" % (unguarded, len(c["a"]) - dels), rep))
     b9, m9 = define_drifted(run_, rng, 1500 if q else 25000)
     bad += b9; mism += m9
     # whole program: -D with a patch that removes every line of its file (by /dev/null, by an empty new side, git 'deleted file'):
